@@ -110,8 +110,13 @@ func genRetry(r *rand.Rand, id int, cfg ChainCfg) History {
 	retry.Verdict = "ok"
 	h.Ops = append(h.Ops, retry)
 
-	// and what was stored is asked for again
-	for i, n := 0, r.Intn(3); i < n; i++ {
+	// and what was stored is asked for again: stale entries left behind by
+	// the rewrite are not served, healed ones are (from the cache, or after a
+	// cache reset from the database)
+	if r.Intn(2) == 0 {
+		h.Ops = append(h.Ops, Op{Kind: "dropcache"})
+	}
+	for i, n := 0, 1+r.Intn(3); i < n; i++ {
 		h.Ops = append(h.Ops, Op{Kind: "call", Height: st + r.Intn(sp-st+1), Verdict: "err"})
 	}
 	return h
